@@ -1,7 +1,7 @@
 (* C19 — The bundled version-1 library is self-consistent.  Only statements;
-   proofs in Proofs/V1.v (decoder) and Proofs/Codec.v (the codec meta-theorem,
-   instantiated on the v1compat schemas generated from the code). *)
-From JWT Require Import Base.Codec Model.V1 Gen.Schema Proofs.V1 Proofs.Codec.
+   proofs in Proofs/V1.v (decoder) and Proofs/V1Codec.v (the codec meta-theorem of
+   Proofs/Codec.v, instantiated on the v1compat schemas generated from the code). *)
+From JWT Require Import Base.Codec Model.V1 Gen.Schema Proofs.V1 Proofs.Codec Proofs.V1Codec.
 Open Scope string_scope.
 
 (* the v1 role matrix (incl. the retired cluster and server kinds) *)
@@ -68,8 +68,11 @@ Print Assumptions C19_encode_roles.
 (* all fields preserved: the codec meta-theorem on the v1compat schemas read from the code *)
 Definition v1_schemas : list ty :=
   [sch1_operator; sch1_account; sch1_user; sch1_activation; sch1_cluster; sch1_server; sch1_generic].
-Theorem C19_schemas_wf : forallb wf_ty v1_schemas = true.
+(* wf_ty' (Proofs/Codec.v) = wf_ty plus the two side conditions the meta-theorem needs:
+   enum names distinct, key-set scopes carry a "kind" field *)
+Theorem C19_schemas_wf : forallb wf_ty' v1_schemas = true.
 Proof. exact v1_schemas_wf. Qed.
+Print Assumptions C19_schemas_wf.
 Theorem C19_roundtrip : forall t v j,
   In t v1_schemas -> has_type t v = true -> enc t v = Some j ->
   exists v', dec t j (zero_val t) = Some v' /\ canon v' = canon v.
